@@ -423,6 +423,14 @@ def run_live_case(exe, d, rng, MC, witness=False):
             k = h.cmd("CHECK").split()
             evs.append(("check", sorted(dead | zombie), int(k[1]), int(k[2]), int(k[3]), ents(k[4:])))
 
+        def shm(kind, sid, tid, idx):
+            h.cmd("%s %d %d %d" % (kind, sid, tid, idx))
+            evs.append(("shm", kind, sid, tid, idx))
+
+        def shl():
+            k = h.cmd("SHL").split()
+            evs.append(("shl", ents(k[1:])))
+
         def drop(mode):
             k = h.cmd("DROP %d" % mode).split()
             evs.append(("drop", mode, int(k[1]), ents(k[2:])))
@@ -432,6 +440,22 @@ def run_live_case(exe, d, rng, MC, witness=False):
             msg("FORK_START", p0, 0)
             msg("TASK_END", p0, p0)
         else:
+            if rng.random() < 0.5:
+                # exec in a task: the old image's buffer is still announced (no REC_END), the new image announces
+                # its first buffer, then TASK_START for the known tid: flush_old_shmem must take the OLD buffer
+                t = rng.choice(kids)
+                msg("TASK_START", p0, t)
+                sid1, sid2 = rng.randrange(1, 1 << 30), rng.randrange(1, 1 << 30)
+                shm("RSTART", sid1, t, 0)
+                if rng.random() < 0.5:
+                    shm("REND", sid1, t, 0)
+                    shm("RSTART", sid1, t, 1)
+                if rng.random() < 0.5:
+                    shm("RSTART", sid1, rng.choice(kids), 0)        # another thread's buffer
+                shm("RSTART", sid2, t, 0)
+                shl()
+                msg("TASK_START", p0, t)
+                shl()
             for _ in range(rng.randrange(6, 26)):
                 x = rng.random()
                 anyp = rng.choice(kids + ghost)
@@ -489,6 +513,11 @@ def coq_lev(e):
         return "LMsg (%s)" % m
     if e[0] == "sig":
         return "LSig %s" % z(e[1])
+    if e[0] == "shm":
+        _, kind, sid, tid, idx = e
+        return "LMsg (%s %s %s %s)" % ("RecStart" if kind == "RSTART" else "RecEnd", z(sid), z(tid), z(idx))
+    if e[0] == "shl":
+        return "LShm [%s]" % "; ".join("(%s, %s, %s)" % (z(a), z(b), z(c)) for a, b, c in e[1])
     if e[0] == "drop":
         _, mode, ret, ents = e
         return "LDrop %s %s [%s]" % (coq.coq_bool(mode == 1), coq.coq_bool(ret),
@@ -525,6 +554,8 @@ def run_live(ctx, rec_exe):
             continue
         hists.append(evs)
         tags = ["live:fork-start-without-fork-end,all-dead(former-fork-window)"] if witness else ["live:history"]
+        if any(e[0] == "shl" for e in evs):
+            tags.append("live:exec(two-sessions-in-one-tid,flush_old_shmem)")
         if any(e[0] == "drop" and e[1] == 1 and e[2] == 1 for e in evs):
             tags.append("live:pending-fork-dropped")
         if any(e[0] == "drop" and e[1] != 1 for e in evs):
@@ -1083,9 +1114,12 @@ def replay(ctx, obj):
         pr = build_prog(work, 0, src, nth, nf)
         case["prog"] = 0
         del E2E_TIMEOUTS[:]
-        ob = e2e_run(os.path.join(objdir, "uftrace"), objdir, pr, work, 0, case)
-        ctx.log("replayed e2e case:", case, "rc=%s files=%s" % (ob.get("rc"), ob.get("files")))
-        e2e_judge(ctx, [pr], [case], [ob])
+        for attempt in range(3):            # (scheduling of recorder vs tracee differs from run to run)
+            ob = e2e_run(os.path.join(objdir, "uftrace"), objdir, pr, work, attempt, case)
+            ctx.log("replayed e2e case:", case, "rc=%s files=%s" % (ob.get("rc"), ob.get("files")))
+            e2e_judge(ctx, [pr], [case], [ob])
+            if ctx.violations:
+                break
     elif obj.get("line") in ("forkfail", "forkwin"):
         fw = {}
         fork_fail_e2e(ctx, objdir, fw)
@@ -1096,7 +1130,8 @@ def replay(ctx, obj):
         h = obj.get("history") or obj.get("first_disagreement")
         hist = [tuple(tuple(x) if isinstance(x, list) and e[0] != "check" else x for x in e) for e in h]
         hist = [(e[0], e[1], e[2], e[3], e[4], [tuple(t) for t in e[5]]) if e[0] == "check" else
-                (e[0], e[1], e[2], [tuple(t) for t in e[3]]) if e[0] == "drop" else tuple(e) for e in hist]
+                (e[0], e[1], e[2], [tuple(t) for t in e[3]]) if e[0] == "drop" else
+                (e[0], [tuple(t) for t in e[1]]) if e[0] == "shl" else tuple(e) for e in hist]
         res = eval_live(ctx, [hist], "replay_live")
         ctx.case(key="replay")
         if res is not None:
